@@ -997,9 +997,9 @@ pub fn run(ctx: &Ctx) -> Outcome {
         .collect();
     // depth counted AFTER the setup (open + begin of session 0), i.e. the design's depth + 1
     let plan: Vec<(Cfg, usize, &str, &Vec<usize>)> = if ctx.quick() {
-        vec![(CFGS[0], 4, "full", &full), (CFGS[3], 4, "full", &full), (CFGS[1], 4, "deep", &deep), (CFGS[2], 4, "deep", &deep)]
+        vec![(CFGS[0], 4, "full", &full), (CFGS[3], 4, "full", &full), (CFGS[1], 4, "deep", &deep), (CFGS[2], 4, "deep", &deep), (CFGS[0], 5, "deep", &deep), (CFGS[3], 5, "deep", &deep)]
     } else {
-        vec![(CFGS[0], 5, "full", &full), (CFGS[3], 5, "full", &full), (CFGS[1], 5, "deep", &deep), (CFGS[2], 5, "deep", &deep), (CFGS[0], 6, "deep", &deep), (CFGS[1], 6, "deep", &deep), (CFGS[2], 6, "deep", &deep)]
+        vec![(CFGS[0], 5, "full", &full), (CFGS[3], 5, "full", &full), (CFGS[1], 5, "deep", &deep), (CFGS[2], 5, "deep", &deep), (CFGS[0], 6, "deep", &deep), (CFGS[1], 6, "deep", &deep), (CFGS[2], 6, "deep", &deep), (CFGS[3], 6, "deep", &deep), (CFGS[0], 7, "deep", &deep)]
     };
     // Part B first (scripted client against the real listener): it gets at most a quarter of the budget
     let lb = listener::run_part_b(ctx, (t0 + Duration::from_secs_f64(ctx.budget_s * 0.25)).min(deadline), &mut out);
